@@ -1,6 +1,6 @@
 """C08 - all rows of a table share one right edge and proportional columns."""
 from ..runner import Ob
-from ._pag import prep_ob
+from ._pag import glue_ob, prep_ob
 
 HDR8 = r'''
 from vf.hlib import NS, pick, concrete_int, with_tc
@@ -143,12 +143,23 @@ from vf.fakes import FakeFrame
     rtf.RTFDocument(df=DF3, rtf_body=body, rtf_column_header=[hdr])
     d2 = rtf.RTFDocument(df=DF2, rtf_body=body, rtf_column_header=[hdr] if hw else [rtf.RTFColumnHeader()])
     want = [1, 1] if bw == 0 else [2.0, 2.0]
-    return list(d2.rtf_body.col_rel_width) == want and list(d2.rtf_column_header[0].col_rel_width) == want
+    ok = list(d2.rtf_body.col_rel_width) == want and list(d2.rtf_column_header[0].col_rel_width) == want
+    # one body / header object given for two sections of different column counts: each section resolves its own widths
+    b2 = rtf.RTFBody(col_rel_width=None if bw == 0 else [2.0])
+    h2 = rtf.RTFColumnHeader()
+    dm = rtf.RTFDocument(df=[DF3, DF2], rtf_body=[b2, b2], rtf_column_header=[[h2], [h2] if hw else [rtf.RTFColumnHeader()]])
+    w3 = [1, 1, 1] if bw == 0 else [2.0, 2.0, 2.0]
+    ok = ok and [list(b.col_rel_width) for b in dm.rtf_body] == [w3, want]
+    ok = ok and [list(hs[0].col_rel_width) for hs in dm.rtf_column_header] == [w3, want]
+    return ok
 ''',
         funcs=["rtflite.encode:RTFDocument.__init__"],
         bounds="a body (col_rel_width unset or one broadcast value) and a default header first used by a 3-column document, then by a "
-               "2-column document",
-        what="configuration objects used by an earlier document give the later document the widths a fresh object would"))
+               "2-column document; and one body/header object given for both sections (3 and 2 columns) of one document",
+        what="configuration objects used by an earlier document - or by an earlier section of the same document - give the later one "
+             "the widths a fresh object would"))
+    # O9: the section glue hands every page - also the fallback page of an empty table - the displayed columns' widths and attributes
+    obs.append(glue_ob("O9.section_glue", T))
     meta = {
         "explanation": "Column geometry is decided in exact real arithmetic on a trace of the real Utils._col_widths (engine B: every "
                        "real width vector, not a grid), the inch->twip conversion bit-exactly in IEEE doubles, and the row emitters "
